@@ -435,6 +435,20 @@ def proof_stage(run, prop_file, gen_sections, extra_trusted=None):
         if res["unreported"]:
             broken.append("no Print Assumptions output for %s" % res["unreported"])
         run.cov["closed_under_global_context"] = res["closed"]
+    if res["ok"] and run.tier == "thorough" and not broken:
+        # independent re-check of the compiled property file and everything it depends on
+        mod = "V." + prop_file[:-2].replace("/", ".")
+        rc, out = sh("timeout 3000 coqchk -silent -o -Q . V %s 2>&1" % mod, cwd=COQ, timeout=3100)
+        m = re.search(r"\* Axioms:(.*?)\n\s*\n\* Constants/Inductives relying on type-in-type:(.*?)\n\s*\n\* Constants/Inductives relying on unsafe \(co\)fixpoints:(.*?)\n\s*\n\* Inductives whose positivity is assumed:(.*?)\n", out + "\n\n", re.S)
+        if rc != 0 or not m:
+            broken.append("coqchk failed on %s: %s" % (mod, out[-600:]))
+        else:
+            axs = [a.strip() for a in m.group(1).strip().split("\n") if a.strip() and a.strip() != "<none>"]
+            bad = [a for a in axs if a.split(".")[-1] not in ALLOWED_AXIOMS]
+            others = [g.strip() for g in m.groups()[1:] if g.strip() != "<none>"]
+            run.cov["coqchk"] = {"module": mod, "axioms": axs or "<none>", "type_in_type/unsafe_fix/assumed_positivity": others or "<none>"}
+            if bad or others:
+                broken.append("coqchk reports non-allow-listed axioms or disabled checks: %s %s" % (bad, others))
     run.cov["discharged"] = nobl if not broken else 0
     run.cov["proof_files"] = deps
     if broken:
